@@ -82,8 +82,8 @@ Clause(name, ww, e) ==
                LET v == ww.vars[i] IN
                (OnGrid(v) /\ v.kind = "face" /\ HasVar(e.obs.ok.vars, v.name)) =>
                   LET o == ObsVar(e.obs.ok.vars, v.name) IN
-                  (o.dims = v.dims /\ WellFormedArray(o)) =>
-                     \A r \in 0..(ResultFaces(ww) - 1) :
+                  /\ o.dims = v.dims /\ WellFormedArray(o) /\ o.shape = Expected(ww, v, e.off).shape
+                  /\ \A r \in 0..(ResultFaces(ww) - 1) :
                         OrigFace(ww, r) \in sel =>
                            \A ex \in Indices(OtherShape(v)) :
                               LET g == IF IsUGrid(ww) THEN <<r>> ELSE UnravelRM(<<Hi(ww, "face", sel, 1) - Lo(ww, "face", sel, 1) + 1,
@@ -96,8 +96,8 @@ Clause(name, ww, e) ==
                LET v == ww.vars[i] IN
                (OnGrid(v) /\ v.kind = "face" /\ Maskable(v) /\ HasVar(e.obs.ok.vars, v.name)) =>
                   LET o == ObsVar(e.obs.ok.vars, v.name) IN
-                  (o.dims = v.dims /\ WellFormedArray(o)) =>
-                     \A r \in 0..(ResultFaces(ww) - 1) :
+                  /\ o.dims = v.dims /\ WellFormedArray(o) /\ o.shape = Expected(ww, v, e.off).shape
+                  /\ \A r \in 0..(ResultFaces(ww) - 1) :
                         OrigFace(ww, r) \notin sel =>
                            \A ex \in Indices(OtherShape(v)) :
                               At(o, FullIdx(v, ex, UnravelRM(<<Hi(ww, "face", sel, 1) - Lo(ww, "face", sel, 1) + 1,
